@@ -2639,11 +2639,15 @@ func (t *Terminal) printHeader() {
 		if !t.headerLinesShape.Visible() {
 			lines = t.header
 		}
-		t.printHeaderImpl(t.headerWindow, t.headerBorderShape, t.header0, lines)
+		reserved := len(t.header0)
+		if !t.headerLinesShape.Visible() {
+			reserved += t.headerLines
+		}
+		t.printHeaderImpl(t.headerWindow, t.headerBorderShape, t.header0, lines, reserved)
 	})
 	if t.headerLinesShape.Visible() {
 		t.withWindow(t.headerLinesWindow, func() {
-			t.printHeaderImpl(t.headerLinesWindow, t.headerLinesShape, nil, t.header)
+			t.printHeaderImpl(t.headerLinesWindow, t.headerLinesShape, nil, t.header, t.headerLines)
 		})
 	}
 }
@@ -2662,7 +2666,7 @@ func (t *Terminal) headerIndent(borderShape tui.BorderShape) int {
 	return indentSize
 }
 
-func (t *Terminal) printHeaderImpl(window tui.Window, borderShape tui.BorderShape, lines1 []string, lines2 []string) {
+func (t *Terminal) printHeaderImpl(window tui.Window, borderShape tui.BorderShape, lines1 []string, lines2 []string, reserved int) {
 	max := t.window.Height()
 	if !t.inputless && t.inputWindow == nil && window == nil && t.headerFirst {
 		max--
@@ -2689,7 +2693,7 @@ func (t *Terminal) printHeaderImpl(window tui.Window, borderShape tui.BorderShap
 	}
 	indent := strings.Repeat(" ", indentSize)
 	t.wrap = false
-	for idx, lineStr := range append(append([]string{}, lines1...), lines2...) {
+	lineAt := func(idx int) int {
 		line := idx
 		if needReverse && idx < len(lines1) {
 			line = len(lines1) - idx - 1
@@ -2700,6 +2704,20 @@ func (t *Terminal) printHeaderImpl(window tui.Window, borderShape tui.BorderShap
 				line++
 			}
 		}
+		return line
+	}
+	// Clear the lines reserved for the header lines that have not been read,
+	// they may still show the previous header
+	if window == nil {
+		for idx := len(lines1) + len(lines2); idx < reserved; idx++ {
+			if line := lineAt(idx); line < max {
+				t.move(line, 0, true)
+				t.markOtherLine(line)
+			}
+		}
+	}
+	for idx, lineStr := range append(append([]string{}, lines1...), lines2...) {
+		line := lineAt(idx)
 		if line >= max {
 			continue
 		}
